@@ -4,6 +4,8 @@ From EQL Require Import Base Values Syntax Spec Elab EvalPure Dedup.
 Record qcase := {
   qc_heap : heap;
   qc_doms : list (key * list val);          (* explicit domains of the variables *)
+  qc_filters : list (key * scond);          (* a variable given as a nested query an(entity(x, c)) - c over x alone - wherever it is
+                                               used: it ranges over the members of its domain that satisfy c *)
   qc_binders : list binder;                  (* what the query ranges over, dependency order *)
   qc_sel : list term;                        (* selected expressions, in selection order *)
   qc_cond : option scond
@@ -11,13 +13,19 @@ Record qcase := {
 
 Definition dom_of (d : list (key * list val)) : key -> list val :=
   fun k => match aget d k with Some l => l | None => [] end.
+Definition dom_of_case (c : qcase) : key -> list val :=
+  let d0 := dom_of (qc_doms c) in
+  fun k => match aget (qc_filters c) k with
+           | Some f => filter (fun v => sat (qc_heap c) d0 f (upd env0 k v)) (d0 k)
+           | None => d0 k
+           end.
 
 Open Scope string_scope.
 Definition show_row (r : list val) : string := String.concat "," (map show_val r).
 Definition show_rows (rs : list (list val)) : string := String.concat ";" (map show_row rs).
 
 Definition run_qcase (n : nat) (c : qcase) : string :=
-  let d := dom_of (qc_doms c) in
+  let d := dom_of_case c in
   let spec := show_rows (spec_rows (qc_heap c) d (qc_binders c) (qc_sel c) (qc_cond c)) in
   let model :=
     match qc_cond c with
@@ -50,7 +58,7 @@ Definition the_outcome (rows : list (list val)) : string :=
   end.
 
 Definition run_qcase_the (n : nat) (c : qcase) : string :=
-  let d := dom_of (qc_doms c) in
+  let d := dom_of_case c in
   let spec := the_outcome (spec_rows (qc_heap c) d (qc_binders c) (qc_sel c) (qc_cond c)) in
   let model :=
     match qc_cond c with
@@ -66,7 +74,7 @@ Definition run_qcase_the (n : nat) (c : qcase) : string :=
 (* a pool of queries over the same heap (C04): the answer of every query of the pool on untouched data, model and specification *)
 Definition run_qpool (n : nat) (cs : list qcase) : string :=
   let one (c : qcase) : string * string :=
-    let d := dom_of (qc_doms c) in
+    let d := dom_of_case c in
     (match qc_cond c with
      | None => "R " ++ show_rows (run_query (qc_heap c) d (qc_sel c) None)
      | Some sc => match elab sc with
@@ -80,9 +88,9 @@ Definition run_qpool (n : nat) (cs : list qcase) : string :=
 
 (* metamorphic pairs (C18): the model runs the rewritten query, the specification answers the original one *)
 Definition run_qpair (n : nat) (orig variant : qcase) : string :=
-  let d := dom_of (qc_doms orig) in
+  let d := dom_of_case orig in
   let spec := show_rows (spec_rows (qc_heap orig) d (qc_binders orig) (qc_sel orig) (qc_cond orig)) in
-  let dv := dom_of (qc_doms variant) in
+  let dv := dom_of_case variant in
   let model :=
     match qc_cond variant with
     | None => "R " ++ show_rows (run_query (qc_heap variant) dv (qc_sel variant) None)
